@@ -28,6 +28,7 @@ func main() {
 		logp    = flag.String("log", "", "")
 		root    = flag.String("root", "/verif", "verif root")
 		race    = flag.String("racebin", "", "race-instrumented binary for race-aware monitors")
+		alt     = flag.String("altbin", "", "binary built with the second toolchain; every second worker uses it")
 		replay  = flag.String("replay", "", "replay file written by an earlier violation")
 		workers = flag.Int("workers", 0, "number of worker processes")
 		list    = flag.Bool("list", false, "list registered properties")
@@ -87,7 +88,7 @@ func main() {
 			w = 8
 		}
 	}
-	code := core.Drive(p, core.DriverOpts{Root: *root, Self: self, SelfRace: *race, Tier: t, Seed: s, Workers: w, Only: only})
+	code := core.Drive(p, core.DriverOpts{Root: *root, Self: self, SelfRace: *race, AltBin: *alt, Tier: t, Seed: s, Workers: w, Only: only})
 	_ = filepath.Join
 	os.Exit(code)
 }
